@@ -1,5 +1,289 @@
-import CachedModel
+/-
+  C11  Writes are applied exactly once, one at a time, in submission order; nothing is dropped or duplicated
+       even when the command queue is full; a put followed without awaiting by a delete of the same key always
+       leaves the key absent.
+
+  All statements are about Layer A (CachedModel/State.lean).  Quantifiers: every state (or every state with the
+  queue invariant `QInv`, which holds at every reachable state: `qinv_reach`), every client, command, event,
+  oracle.  Reading guide:
+    * a submission appends the command ONCE at the tail with a fresh pending handle (1), or parks the caller
+      with the queue untouched (2) until `resume` appends it once (2');
+    * the worker removes exactly the head, one command per step, and answers exactly that command (3);
+    * no other event removes, reorders or answers anything (4);
+    * so handles in the queue are distinct and increasing = submission order = execution order (5), and an
+      answer, once given, never changes (5');
+    * executing `delete k` leaves `k` absent whatever came before (6).
+  Exceptions that the model (faithfully to the implementation) has, stated below as theorems / examples:
+    * a panic on the worker thread drops the whole queue (`C11_panic_drops_queue`, known finding D8/D9);
+    * a delete that is answered `ShuttingDown` is not applied (`C11_shutdown_corner`).
+-/
+import CachedProofs.Lemmas.Queue
 
 namespace Cached
+
+/-! ### 1, 2: submission -/
+
+/-- With room in the queue the command goes to the TAIL, exactly once, with a fresh pending handle. -/
+theorem C11_send_appends (s : State) (c : Nat) (cmd : Cmd) (hw : s.worker ≠ .dead)
+    (hr : s.queue.length < s.cfg.cmdCap) :
+    sendCmd s c cmd = ({ s with queue := s.queue ++ [(cmd, some s.acks.length)], acks := s.acks ++ [.pending] },
+      .ack s.acks.length .pending) :=
+  sendCmd_eq_of_room c cmd hw hr
+
+/-- With the queue full the caller parks: nothing is dropped, nothing is enqueued, queue and acknowledgements
+    are unchanged. -/
+theorem C11_full_queue_parks (s : State) (c : Nat) (cmd : Cmd) (hw : s.worker ≠ .dead)
+    (hr : s.queue.length ≥ s.cfg.cmdCap) :
+    sendCmd s c cmd = ({ s with pend := s.pend.set c (.send cmd) }, .parked) :=
+  sendCmd_eq_of_full c cmd hw hr
+
+/-- A parked send, once there is room, enqueues its command exactly once (at the tail, fresh pending handle)
+    and leaves the parking slot. -/
+theorem C11_resume_enqueues_once (s : State) (c : Nat) (cmd : Cmd) (hp : s.pend.get? c = some (.send cmd))
+    (hw : s.worker ≠ .dead) (hr : s.queue.length < s.cfg.cmdCap) :
+    ∃ s', resume s c = .ok (s', .ack s.acks.length .pending) ∧
+      s'.queue = s.queue ++ [(cmd, some s.acks.length)] ∧ s'.acks = s.acks ++ [.pending] ∧
+      s'.pend.get? c = none := by
+  refine ⟨{ s with pend := s.pend.del c, queue := s.queue ++ [(cmd, some s.acks.length)],
+                   acks := s.acks ++ [.pending] }, ?_, rfl, rfl, AMap.get?_del_same _ _⟩
+  unfold resume
+  rw [hp]
+  have hnf : ¬ (s.queue.length ≥ s.cfg.cmdCap) := by omega
+  simp only [hnf, decide_false, Bool.and_false, Bool.false_eq_true, if_false]
+  rw [sendCmd_eq_of_room (s := { s with pend := s.pend.del c }) c cmd hw hr]
+
+/-- hypotheses of 1, 2, 2' are satisfiable: capacity 1, the first put is queued, the second parks,
+    after a worker step `resume` is enabled -/
+example :
+    let s0 := State.init (cfgCap 1) 0 []
+    s0.worker ≠ .dead ∧ s0.queue.length < s0.cfg.cmdCap := by decide
+example :
+    (runEvs (State.init (cfgCap 1) 0 []) [.putW 0 1 10 1]).map
+      (fun r => (decide (r.1.worker ≠ .dead), decide (r.1.queue.length ≥ r.1.cfg.cmdCap))) = some (true, true) := by
+  decide
+example :
+    (runEvs (State.init (cfgCap 1) 0 []) [.putW 0 1 10 1, .putW 1 2 20 1, .worker]).map
+      (fun r => (r.1.pend.get? 1, decide (r.1.worker ≠ .dead), decide (r.1.queue.length < r.1.cfg.cmdCap))) =
+    some (some (.send (.put 2 2 1 2 20)), true, true) := by decide
+
+/-! ### 3: the worker -/
+
+/-- One (non-panicking) worker step: exactly one command leaves the queue, from the head; only that command's
+    acknowledgement changes; it is set to the status the step reports, which is never `pending`. -/
+theorem C11_worker_takes_head {s s' : State} {o o' : Oracle} {out : Out}
+    (h : workerStep s o = .ok (s', out, o')) (hnp : ∀ p, out ≠ .workerPanic p) :
+    ∃ cmd hd, s.queue = (cmd, hd) :: s'.queue ∧
+      (∀ i, some i ≠ hd → s'.acks[i]? = s.acks[i]?) ∧
+      ∃ kind st ie pp ev, out = .worked kind st ie pp ev ∧ st ≠ .pending ∧
+        ∀ i, hd = some i → i < s.acks.length → s'.acks[i]? = some st := by
+  obtain ⟨-, cmd, hd, q, hq, hpost⟩ := workerStep_spec h
+  rcases hpost.outcome with ⟨p, hp, -⟩ | ⟨kind, st, ie, pp, ev, hout, hst, hq', ha, -⟩
+  · exact absurd hp (hnp p)
+  · refine ⟨cmd, hd, by rw [hq', hq], ?_, kind, st, ie, pp, ev, hout, hst, ?_⟩
+    · intro i hi
+      rw [ha]
+      cases hd with
+      | none => rfl
+      | some j =>
+        have : j ≠ i := fun e => hi (by rw [e])
+        exact List.getElem?_set_ne this
+    · intro i hi hlt
+      subst hi
+      rw [ha]
+      show (s.acks.set i st)[i]? = some st
+      rw [List.getElem?_set_self hlt]
+
+/-- The exception: a panic on the worker thread (time or weight overflow, D8/D9) kills the worker and DROPS
+    every queued command; their acknowledgements stay as they are (pending, for ever). -/
+theorem C11_panic_drops_queue {s s' : State} {o o' : Oracle} {p : Panic}
+    (h : workerStep s o = .ok (s', .workerPanic p, o')) :
+    s.worker = .running ∧ s'.worker = .dead ∧ s'.queue = [] ∧ s'.acks = s.acks := by
+  obtain ⟨-, cmd, hd, q, hq, hpost⟩ := workerStep_spec h
+  rcases hpost.outcome with ⟨p', -, h1, -, h2, h3, h4⟩ | ⟨kind, st, ie, pp, ev, hout, -⟩
+  · exact ⟨h1, h2, h3, h4⟩
+  · cases hout
+
+/-- concrete instance of the exception: `put_with_ttl` with an unrepresentable expiry panics on the worker;
+    the delete queued behind it is dropped and both acknowledgements stay pending -/
+example :
+    (runEvs (State.init (cfgCap 2) 0 []) [.putTtl 0 1 10 (10 ^ 29), .delete 1 2, .worker]).map
+      (fun r => (r.1.qview, r.2)) =
+    some (⟨[], [.pending, .pending], .dead, false, []⟩,
+      [.ack 0 .pending, .ack 1 .pending, .workerPanic .timeOverflow]) := by decide
+
+/-! ### 4: nobody else -/
+
+/-- Every event other than a worker step leaves every acknowledgement already handed out as it is, and either
+    leaves the queue alone or appends one element at its tail. -/
+theorem C11_only_worker_completes {s s' : State} {ev : Ev} {o o' : Oracle} {out : Out} (hev : ev ≠ .worker)
+    (h : step s ev o = .ok (s', out, o')) :
+    (∀ i, i < s.acks.length → s'.acks[i]? = s.acks[i]?) ∧
+    (s'.queue = s.queue ∨ ∃ x, s'.queue = s.queue ++ [x]) := by
+  have m := mono_step hev h
+  refine ⟨?_, m.queue⟩
+  intro i hi
+  rcases m.acks with e | ⟨st, e⟩
+  · rw [e]
+  · rw [e, List.getElem?_append_left hi]
+
+/-! ### 5: exactly once, in order -/
+
+/-- No handle is queued twice, and whenever `h1` is queued before `h2` (anywhere before, not only adjacent)
+    then `h1 < h2`: queue order = order of handle creation = submission order; by 3 it is also the order of
+    execution, the worker only ever removing the head. -/
+theorem C11_exactly_once_in_order {s : State} (h : QInv s) :
+    (queueHandles s).Nodup ∧
+    (∀ h1 h2, [h1, h2].Sublist (queueHandles s) → h1 < h2) ∧
+    (∀ i j (hij : i < j) (hj : j < (queueHandles s).length), (queueHandles s)[i] < (queueHandles s)[j]) := by
+  refine ⟨?_, ?_, ?_⟩
+  · exact h.sorted.imp (fun hlt => Nat.ne_of_lt hlt)
+  · intro h1 h2 hsub
+    have := h.sorted.sublist hsub
+    simp only [List.pairwise_cons, List.mem_cons, List.not_mem_nil, or_false, forall_eq] at this
+    exact this.1
+  · intro i j hij hj
+    exact (List.pairwise_iff_getElem.mp h.sorted) i j (by omega) hj hij
+
+/-- at every reachable state -/
+theorem C11_exactly_once_in_order_reach {cfg : Cfg} {now : Nat} {seeds : List Nat} {s : State}
+    (hr : QReach cfg now seeds s) :
+    (queueHandles s).Nodup ∧ (∀ h1 h2, [h1, h2].Sublist (queueHandles s) → h1 < h2) :=
+  let ⟨a, b, _⟩ := C11_exactly_once_in_order (qinv_reach hr)
+  ⟨a, b⟩
+
+/-- A handle that is no longer `pending` never changes again (no command is executed twice). -/
+theorem C11_acks_stable {s s' : State} {ev : Ev} {o o' : Oracle} {out : Out} (hinv : QInv s)
+    (h : step s ev o = .ok (s', out, o')) {i : Nat} {st : Status} (hi : s.acks[i]? = some st)
+    (hst : st ≠ .pending) : s'.acks[i]? = some st := by
+  have hlt : i < s.acks.length := by
+    rcases Nat.lt_or_ge i s.acks.length with h1 | h1
+    · exact h1
+    · rw [List.getElem?_eq_none h1] at hi; cases hi
+  by_cases hev : ev = .worker
+  · subst hev
+    have hw : workerStep s o = .ok (s', out, o') := h
+    obtain ⟨-, cmd, hd, q, hq, hpost⟩ := workerStep_spec hw
+    rcases hpost.outcome with ⟨p, -, -, -, -, -, ha⟩ | ⟨kind, st', ie, pp, ev, -, -, -, ha, -⟩
+    · rw [ha]; exact hi
+    · rw [ha]
+      cases hd with
+      | none => exact hi
+      | some j =>
+        have hj : j ∈ queueHandles s := by
+          simp only [queueHandles, hq, List.filterMap_cons]; exact List.mem_cons_self
+        have hpj := hinv.queuedPending j hj
+        have hne : j ≠ i := by
+          intro e; subst e; rw [hpj] at hi; cases hi; exact hst rfl
+        show (s.acks.set j st')[i]? = some st
+        rw [List.getElem?_set_ne hne]; exact hi
+  · rw [(C11_only_worker_completes hev h).1 i hlt]; exact hi
+
+/-- hypotheses satisfiable: a reachable state with two queued handles (0 before 1), and one with an answered
+    handle -/
+example :
+    (runEvs (State.init (cfgCap 2) 0 []) [.putW 0 1 10 1, .delete 1 1]).map (fun r => queueHandles r.1) =
+    some [0, 1] := by decide
+example :
+    (runEvs (State.init (cfgCap 2) 0 []) [.putW 0 1 10 1, .delete 1 1, .worker]).map
+      (fun r => (r.1.acks, queueHandles r.1)) = some ([.accepted, .pending], [1]) := by decide
+
+/-! ### 6: put, then delete -/
+
+/-- Executing `delete k` (it always completes, never panics) leaves `k` absent. -/
+theorem C11_delete_leaves_absent (s : State) (k : Nat) :
+    ∃ s1 st, workerDelete s k = .done s1 st none [] [] ∧ s1.store.get? k = none ∧ st ≠ .pending := by
+  unfold workerDelete
+  split
+  · rename_i hg
+    exact ⟨s, _, rfl, hg, by simp⟩
+  · rename_i e he
+    simp only []
+    refine ⟨_, _, rfl, ?_, by simp⟩
+    have : ∀ s3 : State, s3.store = s.store.del k → s3.store.get? k = none := by
+      intro s3 e3; rw [e3]; exact AMap.get?_del_same _ _
+    apply this
+    split <;> split <;> rfl
+
+/-- The worker step that executes `delete k` leaves `k` absent, whatever was executed before. -/
+theorem C11_delete_step_leaves_absent {s s' : State} {o o' : Oracle} {out : Out} {k : Nat} {hd : Option Nat}
+    {q : List (Cmd × Option Nat)} (hw : s.worker = .running) (hq : s.queue = (.delete k, hd) :: q)
+    (h : workerStep s o = .ok (s', out, o')) : s'.store.get? k = none ∧ s'.queue = q := by
+  unfold workerStep at h
+  rw [hw, hq] at h
+  simp only [] at h
+  obtain ⟨s1, st, he, hg, -⟩ := C11_delete_leaves_absent { s with queue := q, worker := .running } k
+  have hsame := (workerDelete_spec { s with queue := q, worker := .running } k).1
+  rw [he] at h hsame
+  simp only [Except.ok.injEq, Prod.mk.injEq] at h
+  obtain ⟨rfl, -, -⟩ := h
+  exact ⟨hg, hsame.queue⟩
+
+/-- A put (or any other command but `Shutdown`) with a `delete k` queued right behind it: once the worker has
+    executed both, `k` is absent — whatever the put's outcome (accepted, rejected, evicting others). -/
+theorem C11_put_then_delete {s s1 s2 : State} {o o1 o2 : Oracle} {out1 out2 : Out} {cmd : Cmd} {k : Nat}
+    {h1 h2 : Option Nat} {q : List (Cmd × Option Nat)} (hw : s.worker = .running) (hc : cmd ≠ .shutdown)
+    (hq : s.queue = (cmd, h1) :: (.delete k, h2) :: q)
+    (hs1 : workerStep s o = .ok (s1, out1, o1)) (hnp : ∀ p, out1 ≠ .workerPanic p)
+    (hs2 : workerStep s1 o1 = .ok (s2, out2, o2)) : s2.store.get? k = none ∧ s2.queue = q := by
+  obtain ⟨-, cmd', hd', q', hq0, hpost⟩ := workerStep_spec hs1
+  rw [hq] at hq0
+  simp only [List.cons.injEq, Prod.mk.injEq] at hq0
+  obtain ⟨⟨rfl, rfl⟩, rfl⟩ := hq0
+  rcases hpost.outcome with ⟨p, hp, -⟩ | ⟨kind, st, ie, pp, ev, -, -, hq', -, hmode⟩
+  · exact absurd hp (hnp p)
+  · have hw1 : s1.worker = .running := by
+      rcases hmode with ⟨hd, -⟩ | ⟨-, he, -⟩ | ⟨-, -, hr⟩
+      · rw [hw] at hd; cases hd
+      · exact absurd he hc
+      · exact hr
+    exact C11_delete_step_leaves_absent hw1 hq' hs2
+
+/-- The corner the statement does not cover: `put 2`, then `delete 2` parked at the full queue while
+    `shutdown()` runs; the delete is enqueued behind `Shutdown`, answered `ShuttingDown` and NOT applied, the
+    put was executed after `shutdown()` cleared the store: key 2 stays in the store (no reader can see it:
+    reads are refused after shutdown, C13). -/
+theorem C11_shutdown_corner :
+    (runEvs (State.init (cfgCap 2) 0 [])
+      [.putW 0 1 10 1, .putW 0 2 20 1, .delete 1 2, .worker, .shutdown 2, .worker, .resume 1, .worker, .worker]).map
+      (fun r => (r.1.acks, r.1.store.contains 2, r.1.worker)) =
+    some ([.accepted, .accepted, .shuttingDown], true, .draining) := by decide
+
+/-! ### 7: a complete run with a full queue -/
+
+/-- Capacity 1: the first `put` is queued with handle 0; the second parks; a worker step executes the first
+    and makes room; `resume` enqueues the second with handle 1; a worker step executes it.
+    Handles 0 and 1 complete in that order, nothing is lost, nothing is executed twice. -/
+example :
+    (runEvs (State.init (cfgCap 1) 0 []) [.putW 0 1 10 1, .putW 1 2 20 1]).map (fun r => (r.1.qview, r.2)) =
+    some (⟨[(.put 1 1 1 1 10, some 0)], [.pending], .running, false, [(1, .send (.put 2 2 1 2 20))]⟩,
+      [.ack 0 .pending, .parked]) := by decide
+
+example :
+    (runEvs (State.init (cfgCap 1) 0 []) [.putW 0 1 10 1, .putW 1 2 20 1, .worker]).map
+      (fun r => (r.1.qview, r.2)) =
+    some (⟨[], [.accepted], .running, false, [(1, .send (.put 2 2 1 2 20))]⟩,
+      [.ack 0 .pending, .parked, .worked "Put" .accepted none [] []]) := by decide
+
+example :
+    (runEvs (State.init (cfgCap 1) 0 []) [.putW 0 1 10 1, .putW 1 2 20 1, .worker, .resume 1]).map
+      (fun r => (r.1.qview, r.2)) =
+    some (⟨[(.put 2 2 1 2 20, some 1)], [.accepted, .pending], .running, false, []⟩,
+      [.ack 0 .pending, .parked, .worked "Put" .accepted none [] [], .ack 1 .pending]) := by decide
+
+example :
+    (runEvs (State.init (cfgCap 1) 0 []) [.putW 0 1 10 1, .putW 1 2 20 1, .worker, .resume 1, .worker]).map
+      (fun r => (r.1.qview, r.2, r.1.store.contains 1, r.1.store.contains 2)) =
+    some (⟨[], [.accepted, .accepted], .running, false, []⟩,
+      [.ack 0 .pending, .parked, .worked "Put" .accepted none [] [], .ack 1 .pending,
+       .worked "Put" .accepted none [] []], true, true) := by decide
+
+/-- `resume` while the queue is still full is not an event the implementation can produce -/
+example :
+    (runEvs (State.init (cfgCap 1) 0 []) [.putW 0 1 10 1, .putW 1 2 20 1, .resume 1]).isNone = true := by decide
+
+/-- put then delete of the same key without awaiting: absent at the end -/
+example :
+    (runEvs (State.init (cfgCap 2) 0 []) [.putW 0 1 10 1, .delete 0 1, .worker, .worker]).map
+      (fun r => (r.1.acks, r.1.store.get? 1)) = some ([.accepted, .accepted], none) := by decide
 
 end Cached
